@@ -584,6 +584,17 @@ theorem g_crypto_match_by_peer (al bl : List Cmd) (c : Call) (hc : c ∈ (matchL
         ∀ t ∈ seqsOf bl, peerD (grp bl t) = peerD (grp al s) → q ≤ t :=
   matchLoop_peer al bl c hc
 
+/-- **A partner is found when there is one.**  A device entry `s` whose peer occurs in `b` and in no earlier
+(lower) device entry is handed over together with an entry of `b` (by `g_crypto_match_by_peer`: the lowest
+with that peer); its call is the one at the position of `s` in the ascending device order. -/
+theorem g_crypto_partner_found (al bl : List Cmd) (pre post : List Nat) (s : Nat)
+    (hk : seqsOf al = pre ++ s :: post)
+    (ht : ∃ t ∈ seqsOf bl, peerD (grp bl t) = peerD (grp al s))
+    (hfirst : ∀ s' ∈ pre, peerD (grp al s') ≠ peerD (grp al s)) :
+    ∃ c q, (matchLoop al bl).1[pre.length]? = some c ∧ c.aIdx = idxFrom s 0 al ∧ c.bSeq = some q ∧
+      c.bl = grp bl q :=
+  matchLoop_found al bl pre post s hk ht hfirst
+
 /-- **Fresh numbers.**  An entry of `b` without partner is handed over with no device command, with all its
 commands, under the name of the device's map and under ONE number produced by `freeSeq`: the first number
 not used on the device counting up (static) or down (dynamic) — free unless all 70000 candidates are used. -/
@@ -610,6 +621,9 @@ example : (matchCalls exAl exBl).map (fun c => (c.aIdx, c.bSeq, c.bl.map (fun d 
     [([2], some 1, [("R", 1)]), ([0, 1], none, []),
      ([], some 2, [("M", 1)]), ([], some 3, [("M", 2), ("M", 2)])] := by decide
 example : (firstPeerErr exAl exBl).isNone = true := by decide
+/-- non-vacuity of `g_crypto_partner_found`: device entry 10 (peer A) is the first with its peer, raw entries 1 and 3 have it -/
+example : seqsOf exAl = [] ++ 10 :: [20] ∧ peerD (grp exBl 1) = peerD (grp exAl 10) ∧
+    ((matchLoop exAl exBl).1[0]?.map (·.bSeq)) = some (some 1) := by decide
 /-- a device that uses 1 and 2: the fresh number is 3 (first free, not "max + 1" = 11 would also be free) -/
 example : (matchCalls [exCM 1 "set peer 1.1.1.1", exCM 2 "set peer 2.2.2.2", exCM 10 "set peer 4.4.4.4"]
     [exCR 5 "set peer 3.3.3.3"]).map (fun c => (c.aIdx, c.bl.map (·.seq))) =
@@ -640,6 +654,6 @@ def obligations : List Lean.Name := [
   ``mergeCmds_ext, ``g_final_table_holds_last_write, ``g_written_once_is_final, ``g_store_events_kept,
   ``g_store_event_asa_acl, ``g_store_event_ios_acl, ``g_store_event_generic, ``g_store_event_crypto, ``g_no_object_name_lost, ``g_generic_commands, ``g_generic_nothing_dropped, ``g_subcommands, ``g_crypto_common,
   ``g_dynmap_commands, ``g_crypto_entry_subcommands, ``g_old_crypto_subcommand_dropped_counterexample, ``g_asa_acl_law, ``g_ios_acl_law, ``g_placed_consequences,
-  ``g_crypto_device_entries_once, ``g_crypto_target_entries_once, ``g_crypto_match_by_peer, ``g_crypto_fresh_numbers, ``g_crypto_calls]
+  ``g_crypto_device_entries_once, ``g_crypto_target_entries_once, ``g_crypto_match_by_peer, ``g_crypto_partner_found, ``g_crypto_fresh_numbers, ``g_crypto_calls]
 
 end NA.C18.G
